@@ -89,6 +89,28 @@ def decl_sort(name: str):
     return s
 
 
+class _NoneT(T):
+    """element type of a sequence of None values (`[None for _ in xs]`): one-valued"""
+
+    def __repr__(self):
+        return "NoneT"
+
+    def z3sort(self):
+        return decl_sort("NoneType")
+
+    def fresh(self, name):
+        return None
+
+    def wrap(self, z):
+        return None
+
+    def const(self):
+        return z3.Const("None", self.z3sort())
+
+
+NoneT = _NoneT()
+
+
 class _Str(T):
     def __repr__(self):
         return "Str"
@@ -753,6 +775,8 @@ def num_pair(a, b):
 
 
 def to_z3(v, t: T):
+    if isinstance(t, _NoneT) and v is None:
+        return t.const()
     if isinstance(t, _Int):
         return zint(v)
     if isinstance(t, _Bool):
